@@ -94,6 +94,7 @@ class Runner:
         sc_rt = dict(sc)
         sc_rt["sidx"] = sidx
         SIM.reset(sc_rt)
+        SIM.on_snapshot = self.snapshot_from_callback
         vloop.set_perm_seed(sc.get("perm_seed", 0))
         for i, p in enumerate(sc["programs"]):
             if not p.get("deferred"):
@@ -454,6 +455,27 @@ class Runner:
                 "extra_attr": getattr(c, "custom_attr", None) == getattr(sm, "custom_attr", None)
                 and getattr(c, "_custom_private", None) == getattr(sm, "_custom_private", None)}
         SIM.rec(k="clone", i=op["inst"], to=tag, info=info)
+        self._register_clone(ent, sm, c, tag, info)
+        return None
+
+    def snapshot_from_callback(self, src_tag, spec):
+        """Called from inside a callback (rule ``snapshot``): the MODEL -- which holds its machine -- is
+        copied right now, in the middle of the event that is being processed (an undo history that
+        snapshots on every state entry)."""
+        import copy
+        import pickle
+
+        ent = self.objs.get(src_tag)
+        if not ent or ent.get("model") is None or getattr(ent["model"], "owner_sm", None) is None:
+            return
+        sm = ent["model"].owner_sm
+        m2 = copy.deepcopy(ent["model"]) if spec.get("how") == "deepcopy" else pickle.loads(pickle.dumps(ent["model"]))
+        c = m2.owner_sm
+        SIM.rec(k="clone", i=src_tag, to=spec["as"], info={"model_shared": False, "from_callback": True})
+        self._register_clone(ent, sm, c, spec["as"], {"model_shared": False})
+        SIM.stats["snapshots_from_callbacks"] = SIM.stats.get("snapshots_from_callbacks", 0) + 1
+
+    def _register_clone(self, ent, sm, c, tag, info):
         ent2 = {"sm": c, "model": c.model, "field": ent["field"], "prog": ent["prog"], "listeners": {}}
         if not info["model_shared"]:
             try:
